@@ -25,6 +25,7 @@ type pcMethod struct {
 }
 
 type enaSite struct {
+	Builder *ssa.Function       // the function that builds and returns the closure, when it is not a literal at the call
 	Call    ssa.CallInstruction // the ExecuteNativeAction invoke
 	Closure *ssa.Function       // func(ctx sdk.Context) error
 	Make    *ssa.MakeClosure
@@ -66,6 +67,20 @@ func (e *Engine) precompileMethods() []*pcMethod {
 					if mc, ok := a.(*ssa.MakeClosure); ok {
 						site.Make = mc
 						site.Closure = mc.Fn.(*ssa.Function)
+					}
+					// `ExecuteNativeAction(addr, nil, m.someAction(args…))`: a method that builds and returns the closure
+					if call, ok := a.(*ssa.Call); ok {
+						if g := call.Common().StaticCallee(); g != nil && isFx(g) && g.Blocks != nil {
+							for _, b := range g.Blocks {
+								if ret, ok := b.Instrs[len(b.Instrs)-1].(*ssa.Return); ok && len(ret.Results) == 1 {
+									if mc, ok := ret.Results[0].(*ssa.MakeClosure); ok && site.Closure == nil {
+										site.Make = mc
+										site.Closure = mc.Fn.(*ssa.Function)
+										site.Builder = g
+									}
+								}
+							}
+						}
 					}
 				}
 				m.ENA = append(m.ENA, site)
@@ -362,9 +377,30 @@ func runC09(e *Engine, r *Report, tier string) {
 					inENA = true
 				}
 			}
+			isBuilder := false
+			for _, s := range m.ENA {
+				if s.Builder != nil && f == s.Builder {
+					isBuilder = true // building the closure has no effect by itself; the call of the builder is not an effect
+				}
+			}
+			if isBuilder {
+				continue
+			}
 			allInstrs(f, func(i ssa.Instruction) {
 				if c, ok := i.(ssa.CallInstruction); ok && callName(c) == "ExecuteNativeAction" {
 					return
+				}
+				if c, ok := i.(ssa.CallInstruction); ok {
+					// the call that merely builds the action closure performs nothing
+					skip := false
+					for _, s := range m.ENA {
+						if s.Builder != nil && c.Common().StaticCallee() == s.Builder {
+							skip = true
+						}
+					}
+					if skip {
+						return
+					}
 				}
 				if e.EffectOf(i) == "" || e.ephemeralCtxEffect(i) {
 					return
